@@ -18,7 +18,16 @@ InputClass(P) == IF Len(P) <= 1 THEN "single"
                  ELSE IF Cardinality(RangeOf(P)) < Len(P) THEN "with_duplicates"
                  ELSE IF Collinear(P) THEN "collinear" ELSE "general"
 Magnitude(P) == IF MaxAbs(P, 1) <= 4096 THEN "small" ELSE "large"
-SigC(pred, class) == [api |-> k.op, pred |-> pred, class |-> class, magnitude |-> Magnitude(k.pts)]
+\* Is the input nearly collinear: do all points lie within 1/128 of the length of
+\* some segment between two input points from the line through that segment?
+\* (cross^2 * 2^14 <= |ab|^4 ; evaluated only for failing cases)
+NearlyCollinear(P) ==
+  \E a, b \in DOMAIN P :
+    LET l2 == Dist2(P[a], P[b]) IN
+    \A i \in DOMAIN P :
+      LET c == Cross(P[a], P[b], P[i]) IN Leq(Mul(Mul(c, c), Big(16384)), Mul(l2, l2))
+SigC(pred, class) == [api |-> k.op, pred |-> pred, class |-> class, magnitude |-> Magnitude(k.pts),
+                      shape |-> IF NearlyCollinear(k.pts) THEN "nearly_collinear" ELSE "well_spread"]
 Sig(pred) == SigC(pred, InputClass(k.pts))
 \* Narrower classes for containment failures (they are what known findings match on):
 \* is a point that the hull leaves outside on the line through one of the hull's edges?
